@@ -397,6 +397,7 @@ Proof.
       rewrite readRawHeaders_spec. cbn [bind].
       destruct (head_len_aux true CurEmpty rest 0) as [rawEnd|] eqn:Eraw.
       2:{ eexists. split; [reflexivity|]. now left. }
+      cbn [raw_res].
       destruct (req_parseHeaders_sound cfg (rl_noHTTP11 l) rest rawEnd) as (ph & -> & Hph). cbn [bind].
       destruct ph as [|e|st n].
       * eexists. split; [reflexivity|]. now left.
@@ -567,7 +568,7 @@ Proof.
     rewrite (req_line_parse_len _ _ _ Efl).
     rewrite slice_from by (subst H; rewrite app_length; lia).
     assert (Esk : skipn (length pre) H = rest) by (rewrite E; apply skipn_at). rewrite Esk. cbn [bind].
-    rewrite readRawHeaders_spec, Hr. cbn [bind].
+    rewrite readRawHeaders_spec, Hr. cbn [bind raw_res].
     unfold req_parseHeaders. rewrite scan_init_needmore by auto. reflexivity.
 Qed.
 
